@@ -303,7 +303,7 @@ def check_otsu(ctx: Ctx):
     centers = U(bc[0].targets[0]) if bc else None
     ctx.decide(okc, "THRESH", site + ":centres", (fi, bc[0]) if bc else fi, "bin centres are the midpoints of consecutive edges (affine points)", "bin centres are not (edges[1:] + edges[:-1])/2")
     rets = [n.stmt for n in fv.return_nodes()]
-    am = [s for s in order if isinstance(s.value, ast.Call) and (fv.callee(s.value) or "").endswith("argmax")]
+    am = [s for s in order if isinstance(s.value, ast.Call) and (fv.callee(s.value) or U(s.value.func)).split(".")[-1] == "argmax"]
     okr = False
     if len(rets) == 1 and len(am) == 1:
         var = U(am[0].value.args[0])
